@@ -364,6 +364,13 @@ func init() {
 		p.httpServeCalls++
 		return iface{v: &errModel{msg: "http.Serve (stub)"}}
 	}
+	// name resolution is outside the encoder: an empty address is returned, no error
+	I["net.ResolveIPAddr"] = func(p *Path, c *frame, fn *ssa.Function, a []value) value {
+		p.res.Reached["stub:net.ResolveIPAddr"] = true
+		cell := new(value)
+		*cell = p.zero(deref(fn.Signature.Results().At(0).Type()))
+		return tuple{cell, iface{}}
+	}
 	I["github.com/cbeuw/Cloak/internal/server/usermanager.APIRouterOf"] = func(p *Path, c *frame, fn *ssa.Function, a []value) value {
 		return (*value)(nil)
 	}
